@@ -5,9 +5,6 @@ Import ListNotations.
 Local Open Scope N_scope.
 
 (* ------------------------------------------------------------------ follower_ge is never flagged *)
-Lemma follower_ge_mhg_le : forall hs, follower_ge hs -> forall b, (forall p, In p hs -> mhg p <= mhg b) -> True.
-Proof. auto. Qed.
-
 Lemma follower_ge_never_flagged : forall hs, follower_ge hs -> pairwise_noncontradicting hs.
 Proof.
   unfold pairwise_noncontradicting.
@@ -32,134 +29,124 @@ Proof.
   - intros p Hin. rewrite Hm. apply follower_mhg_le; assumption.
 Qed.
 
-(* ------------------------------------------------------------------ invariant of the repaired generator *)
-Definition eff (s : st) : tip := match switching s with Some t0 => t0 | None => node s end.
-
-Definition below (p : bh) (t : tip) : Prop :=
-  mhp p < t_hmhp t \/ (mhp p = t_hmhp t /\ height p <= t_height t).
-
+(* ------------------------------------------------------------------ invariant of the current generator *)
 Definition largest (i : geninfo) : N := N.max (gi_height i) (gi_mhg i).
+
+Definition covered (p : bh) (i : geninfo) : Prop :=
+  mhp p < gi_mhp i \/ (mhp p = gi_mhp i /\ height p <= gi_height i).
 
 Record Inv (g : N) (s : st) : Prop := {
   inv_fol : follower_ge (published s);
   inv_gen : forall p, In p (published s) -> gen p = g;
-  inv_below : forall p, In p (published s) -> below p (eff s);
-  inv_ok_eff : tip_ok (eff s) = true;
-  inv_ok_node : tip_ok (node s) = true;
   inv_disk : match disk s with
-             | Some i => max_height (published s) <= largest i /\ forall p, In p (published s) -> mhg p <= largest i
+             | Some i => (forall p, In p (published s) -> covered p i) /\
+                         max_height (published s) <= largest i /\ forall p, In p (published s) -> mhg p <= largest i
              | None => published s = []
              end
 }.
 
-Lemma below_trans : forall p a b, below p a -> key_le a b = true -> below p b.
-Proof. intros p a b H K. unfold below, key_le in *. lia. Qed.
-
-Lemma u32_small : forall x, x < W32 -> u32 x = x.
-Proof. intros. unfold u32. apply N.mod_small. assumption. Qed.
-
-Lemma init_header_fields : forall d t g,
-  let prev := match d with Some i => i | None => zero_info end in
-  init_header d t g =
-  (Build_bh (u32 (t_height t + 1)) g (largest prev) (t_smhp t),
-   Build_geninfo (u32 (t_height t + 1)) (t_smhp t) (largest prev)).
-Proof. intros. reflexivity. Qed.
-
-Lemma step_inv : forall g s e s', Inv g s -> step g init_header s e = Some s' -> Inv g s'.
+Lemma init_header_cases : forall d t g,
+  match init_header d t g with
+  | None => exists i, d = Some i /\ exceeds i (t_smhp t) (u32 (t_height t + 1)) = false
+  | Some (h, info) =>
+      let prev := match d with Some i => i | None => zero_info end in
+      h = Build_bh (u32 (t_height t + 1)) g (largest prev) (t_smhp t) /\
+      info = Build_geninfo (u32 (t_height t + 1)) (t_smhp t) (largest prev) /\
+      match d with Some i => exceeds i (t_smhp t) (u32 (t_height t + 1)) = true | None => True end
+  end.
 Proof.
-  intros g s e s' [Hfol Hgen Hbelow Hoke Hokn Hdisk] Hstep.
-  destruct s as [d nd sw pubs]. unfold eff in *. cbn [disk node switching published] in *.
-  destruct e as [c after|t| |t|t| |]; cbn [step disk node switching published] in Hstep.
-  - (* forge *)
-    destruct sw as [t0|]; [discriminate|].
-    rewrite init_header_fields in Hstep. cbv zeta in Hstep.
-    set (prev := match d with Some i => i | None => zero_info end) in *.
-    assert (Hmax : max_height pubs <= largest prev /\ forall p, In p pubs -> mhg p <= largest prev).
-    { subst prev. destruct d as [i|]; [exact Hdisk|]. subst pubs. cbn. split; [lia|intros p []]. }
-    destruct Hmax as [Hmax Hmg].
-    assert (Hh : u32 (t_height nd + 1) = t_height nd + 1) by (apply u32_small; unfold tip_ok in Hokn; lia).
-    destruct c.
-    + (* no crash *)
-      destruct (tip_ok {| t_hmhp := t_smhp nd; t_smhp := after; t_height := t_height nd + 1 |}) eqn:Hok'; [|discriminate].
-      injection Hstep as <-. rewrite Hh.
-      assert (Hnew : forall p, In p pubs -> gen p = g /\
-                (mhp p < t_smhp nd \/ (mhp p = t_smhp nd /\ height p < t_height nd + 1))).
-      { intros p Hin. split; [apply Hgen; assumption|]. specialize (Hbelow p Hin). unfold below, tip_ok in *. lia. }
-      constructor; cbn [disk node switching published eff].
-      * constructor; cbn [mhg gen mhp height]; auto.
-      * intros p [<-|Hin]; [reflexivity|apply Hgen; assumption].
-      * intros p [<-|Hin]; unfold below; cbn [mhp height t_hmhp t_height].
-        -- right. split; lia.
-        -- destruct (Hnew p Hin) as [_ H]. lia.
-      * exact Hok'.
-      * exact Hok'.
-      * unfold largest; cbn [gi_height gi_mhg max_height height]. split.
-        -- fold (largest prev). lia.
-        -- intros p [<-|Hin]; cbn [mhg]; [fold (largest prev); lia|]. specialize (Hmg p Hin). fold (largest prev). lia.
-    + (* crash before persist *)
-      injection Hstep as <-. constructor; assumption.
-    + (* crash after persist *)
-      injection Hstep as <-. constructor; cbn [disk node switching published eff]; auto.
-      unfold largest; cbn [gi_height gi_mhg]. fold (largest prev). split; [lia|].
-      intros p Hin. specialize (Hmg p Hin). lia.
-  - (* tip by fork choice *)
-    destruct sw as [t0|]; [discriminate|].
-    destruct (tip_ok t && key_le nd t) eqn:G; [|discriminate]. injection Hstep as <-.
-    apply andb_true_iff in G. destruct G as [G1 G2].
-    constructor; cbn [disk node switching published eff]; auto.
-    intros p Hin. eapply below_trans; [apply Hbelow; assumption|exact G2].
-  - (* switch begin *)
-    destruct sw as [t0|]; [discriminate|]. injection Hstep as <-.
-    constructor; cbn [disk node switching published eff]; auto.
-  - (* delete *)
-    destruct sw as [t0|]; [|discriminate]. destruct (tip_ok t) eqn:G; [|discriminate]. injection Hstep as <-.
-    constructor; cbn [disk node switching published eff]; auto.
-  - (* apply *)
-    destruct sw as [t0|]; [|discriminate]. destruct (tip_ok t) eqn:G; [|discriminate]. injection Hstep as <-.
-    constructor; cbn [disk node switching published eff]; auto.
-  - (* switch end *)
-    destruct sw as [t0|]; [|discriminate]. destruct (key_le t0 nd) eqn:G; [|discriminate]. injection Hstep as <-.
-    constructor; cbn [disk node switching published eff]; auto.
-    intros p Hin. eapply below_trans; [apply Hbelow; assumption|exact G].
-  - (* restart *)
-    destruct sw as [t0|]; [discriminate|]. injection Hstep as <-. constructor; assumption.
+  intros d t g. unfold init_header. destruct d as [i|].
+  - destruct (exceeds i (t_smhp t) (u32 (t_height t + 1))) eqn:E.
+    + cbn. repeat split; reflexivity.
+    + exists i. split; [reflexivity|exact E].
+  - cbn. repeat split; reflexivity.
 Qed.
 
-Lemma init_inv : forall g t, tip_ok t = true -> Inv g (init t).
+Lemma forge_facts : forall g d t h info pubs,
+  init_header d t g = Some (h, info) ->
+  match d with
+  | Some i => (forall p, In p pubs -> covered p i) /\ max_height pubs <= largest i /\ forall p, In p pubs -> mhg p <= largest i
+  | None => pubs = []
+  end ->
+  (forall p, In p pubs -> gen p = g) ->
+  (* the new header strictly exceeds every earlier one and carries a sufficient maxHeightGenerated *)
+  gen h = g /\ max_height pubs <= mhg h /\ (forall p, In p pubs -> mhg p <= mhg h) /\
+  (forall p, In p pubs -> gen p = gen h /\ (mhp p < mhp h \/ (mhp p = mhp h /\ height p < height h))) /\
+  (* and the info written covers it and everything before *)
+  gi_height info = height h /\ gi_mhp info = mhp h /\ gi_mhg info = mhg h /\
+  (forall p, In p (h :: pubs) -> covered p info) /\
+  max_height (h :: pubs) <= largest info /\ (forall p, In p (h :: pubs) -> mhg p <= largest info) /\
+  match d with Some i => largest i = mhg h | None => mhg h = 0 end.
 Proof.
-  intros g t Hok. constructor; cbn; auto.
-  - constructor.
-  - intros p [].
-  - intros p [].
+  intros g d t h info pubs Hh Hd Hgen. pose proof (init_header_cases d t g) as Hc. rewrite Hh in Hc. cbv zeta in Hc.
+  destruct Hc as (-> & -> & Hex). cbn [gen mhg mhp height gi_height gi_mhp gi_mhg].
+  destruct d as [i|].
+  - destruct Hd as (Hcov & Hmax & Hmg). unfold exceeds in Hex.
+    assert (Hlt : forall p, In p pubs -> mhp p < t_smhp t \/ (mhp p = t_smhp t /\ height p < u32 (t_height t + 1))).
+    { intros p Hin. specialize (Hcov p Hin). unfold covered in Hcov. lia. }
+    split; [reflexivity|]. split; [exact Hmax|]. split; [exact Hmg|].
+    split; [intros p Hin; split; [apply Hgen; exact Hin|apply Hlt; exact Hin]|].
+    split; [reflexivity|]. split; [reflexivity|]. split; [reflexivity|].
+    split.
+    { intros p [<-|Hin]; unfold covered; cbn [mhp height gi_mhp gi_height]; [lia|]. specialize (Hlt p Hin). lia. }
+    unfold largest in *. cbn [gi_height gi_mhg max_height height] in *.
+    split; [lia|]. split; [|reflexivity].
+    intros p [<-|Hin]; cbn [mhg]; [lia|]. specialize (Hmg p Hin). lia.
+  - subst pubs. unfold largest, zero_info. cbn [max_height In gi_height gi_mhg height mhg].
+    split; [reflexivity|]. split; [lia|]. split; [intros p []|]. split; [intros p []|].
+    split; [reflexivity|]. split; [reflexivity|]. split; [reflexivity|].
+    split.
+    { intros p [<-|[]]. unfold covered; cbn. lia. }
+    split; [lia|]. split; [|reflexivity]. intros p [<-|[]]. cbn. lia.
 Qed.
 
-Lemma run_inv : forall g evs s s', Inv g s -> run g init_header s evs = Some s' -> Inv g s'.
+Lemma step_inv : forall g s e, Inv g s -> Inv g (step g init_header s e).
 Proof.
-  induction evs as [|e evs IH]; intros s s' Hinv Hrun; cbn [run] in Hrun.
-  - injection Hrun as <-. assumption.
-  - destruct (step g init_header s e) as [s1|] eqn:E; [|discriminate].
-    eapply IH; [eapply step_inv; eassumption|exact Hrun].
+  intros g s e [Hfol Hgen Hdisk]. destruct s as [d nd sy pubs]. cbn [disk node syncing published] in *.
+  destruct e as [c|t|b|]; cbn [step disk node syncing published]; try (constructor; assumption).
+  destruct sy; [constructor; assumption|].
+  destruct (init_header d nd g) as [[h info]|] eqn:Eh; [|constructor; assumption].
+  destruct (forge_facts g d nd h info pubs Eh Hdisk Hgen) as (G1 & G2 & G3 & G4 & _ & _ & _ & G5 & G6 & G7 & _).
+  destruct c.
+  - constructor; cbn [disk published].
+    + constructor; assumption.
+    + intros p [<-|Hin]; [exact G1|apply Hgen; exact Hin].
+    + split; [exact G5|]. split; [exact G6|exact G7].
+  - constructor; assumption.
+  - constructor; cbn [disk published]; [assumption|assumption|].
+    split; [intros p Hin; apply G5; right; exact Hin|].
+    split; [cbn [max_height] in G6; lia|intros p Hin; apply G7; right; exact Hin].
 Qed.
 
-(* C15: over all sequences of forge (with and without crashes) / tip change / switch / delete / apply / restart *)
-Lemma never_self_contradicting : forall g t0 evs s,
-  tip_ok t0 = true -> run g init_header (init t0) evs = Some s ->
+Lemma init_inv : forall g t, Inv g (init t).
+Proof. intros g t. constructor; cbn; [constructor|intros p []|reflexivity]. Qed.
+
+Lemma run_inv : forall g evs s, Inv g s -> Inv g (run g init_header s evs).
+Proof.
+  induction evs as [|e evs IH]; intros s Hinv; cbn [run fold_left]; [exact Hinv|].
+  apply IH. apply step_inv. exact Hinv.
+Qed.
+
+(* C15: over ALL sequences of events — forge ticks with and without crashes, arbitrary tip changes (own block
+   processed, not yet processed or dropped; fork choice; deletes; a failed sync leaving a lower tip), syncing
+   on/off, restarts — no hypothesis on the environment *)
+Lemma never_self_contradicting : forall g t0 evs,
+  let s := run g init_header (init t0) evs in
   follower_ge (published s) /\ pairwise_noncontradicting (published s).
 Proof.
-  intros g t0 evs s Hok Hrun. pose proof (run_inv g evs _ _ (init_inv g t0 Hok) Hrun) as [Hfol _ _ _ _ _].
+  intros g t0 evs s. pose proof (run_inv g evs _ (init_inv g t0)) as [Hfol _ _].
   split; [exact Hfol|apply follower_ge_never_flagged; exact Hfol].
 Qed.
 
-(* the largest height ever handed on is covered by what is on disk at that moment (persist before hand-off),
-   and that is what the next header reports *)
-Lemma persisted_covers_published : forall g t0 evs s,
-  tip_ok t0 = true -> run g init_header (init t0) evs = Some s ->
+(* the largest height ever handed on is covered by what is on disk at that moment (persist before hand-off) *)
+Lemma persisted_covers_published : forall g t0 evs,
+  let s := run g init_header (init t0) evs in
   match disk s with
   | Some i => max_height (published s) <= N.max (gi_height i) (gi_mhg i)
   | None => published s = []
   end.
 Proof.
-  intros g t0 evs s Hok Hrun. pose proof (run_inv g evs _ _ (init_inv g t0 Hok) Hrun) as [_ _ _ _ _ Hd].
+  intros g t0 evs s. pose proof (run_inv g evs _ (init_inv g t0)) as [_ _ Hd]. fold s in Hd.
   destruct (disk s); [apply Hd|exact Hd].
 Qed.
 
@@ -173,93 +160,87 @@ Record InvEq (g : N) (s : st) : Prop := {
             end
 }.
 
-Lemma step_inv_eq : forall g s e s', InvEq g s -> (forall a, e <> EForge CrashAfterPersist a) ->
-  step g init_header s e = Some s' -> InvEq g s'.
+Lemma step_inv_eq : forall g s e, InvEq g s -> e <> EForge CrashAfterPersist -> InvEq g (step g init_header s e).
 Proof.
-  intros g s e s' [Hinv Hfol Hdisk] Hnc Hstep. pose proof (step_inv g s e s' Hinv Hstep) as Hinv'.
-  constructor; [exact Hinv'| |].
-  - destruct Hinv as [_ Hgen Hbelow _ Hokn _].
-    destruct s as [d nd sw pubs]. unfold eff in *. cbn [disk node switching published] in *.
-    destruct e as [c after|t| |t|t| |]; cbn [step disk node switching published] in Hstep.
-    + destruct sw as [t0|]; [discriminate|]. rewrite init_header_fields in Hstep. cbv zeta in Hstep.
-      set (prev := match d with Some i => i | None => zero_info end) in *.
-      assert (Hmax : largest prev = max_height pubs).
-      { subst prev. destruct d as [i|]; [exact Hdisk|]. subst pubs. reflexivity. }
-      assert (Hh : u32 (t_height nd + 1) = t_height nd + 1) by (apply u32_small; unfold tip_ok in Hokn; lia).
-      destruct c.
-      * destruct (tip_ok {| t_hmhp := t_smhp nd; t_smhp := after; t_height := t_height nd + 1 |}) eqn:Hok'; [|discriminate]. injection Hstep as <-. cbn [published]. rewrite Hh.
-        constructor; cbn [mhg gen mhp height]; auto.
-        intros p Hin. split; [apply Hgen; assumption|]. specialize (Hbelow p Hin). unfold below, tip_ok in *. lia.
-      * injection Hstep as <-. exact Hfol.
-      * exfalso. apply (Hnc after). reflexivity.
-    + destruct sw; [discriminate|]. destruct (tip_ok t && key_le nd t); [|discriminate]. injection Hstep as <-. exact Hfol.
-    + destruct sw; [discriminate|]. injection Hstep as <-. exact Hfol.
-    + destruct sw; [|discriminate]. destruct (tip_ok t); [|discriminate]. injection Hstep as <-. exact Hfol.
-    + destruct sw; [|discriminate]. destruct (tip_ok t); [|discriminate]. injection Hstep as <-. exact Hfol.
-    + destruct sw as [t0|]; [|discriminate]. destruct (key_le t0 nd); [|discriminate]. injection Hstep as <-. exact Hfol.
-    + destruct sw; [discriminate|]. injection Hstep as <-. exact Hfol.
-  - destruct Hinv as [_ _ _ _ Hokn _].
-    destruct s as [d nd sw pubs]. cbn [disk node switching published] in *.
-    destruct e as [c after|t| |t|t| |]; cbn [step disk node switching published] in Hstep.
-    + destruct sw as [t0|]; [discriminate|]. rewrite init_header_fields in Hstep. cbv zeta in Hstep.
-      set (prev := match d with Some i => i | None => zero_info end) in *.
-      assert (Hmax : largest prev = max_height pubs).
-      { subst prev. destruct d as [i|]; [exact Hdisk|]. subst pubs. reflexivity. }
-      destruct c.
-      * destruct (tip_ok {| t_hmhp := t_smhp nd; t_smhp := after; t_height := t_height nd + 1 |}) eqn:Hok'; [|discriminate]. injection Hstep as <-. cbn [disk published].
-        unfold largest at 1; cbn [gi_height gi_mhg max_height height]. rewrite Hmax. reflexivity.
-      * injection Hstep as <-. exact Hdisk.
-      * exfalso. apply (Hnc after). reflexivity.
-    + destruct sw; [discriminate|]. destruct (tip_ok t && key_le nd t); [|discriminate]. injection Hstep as <-. exact Hdisk.
-    + destruct sw; [discriminate|]. injection Hstep as <-. exact Hdisk.
-    + destruct sw; [|discriminate]. destruct (tip_ok t); [|discriminate]. injection Hstep as <-. exact Hdisk.
-    + destruct sw; [|discriminate]. destruct (tip_ok t); [|discriminate]. injection Hstep as <-. exact Hdisk.
-    + destruct sw as [t0|]; [|discriminate]. destruct (key_le t0 nd); [|discriminate]. injection Hstep as <-. exact Hdisk.
-    + destruct sw; [discriminate|]. injection Hstep as <-. exact Hdisk.
+  intros g s e [Hinv Hfol Hdisk] Hnc. pose proof (step_inv g s e Hinv) as Hinv'.
+  destruct Hinv as [_ Hgen Hd]. destruct s as [d nd sy pubs]. cbn [disk node syncing published] in *.
+  destruct e as [c|t|b|]; cbn [step disk node syncing published] in *; try (constructor; assumption).
+  destruct sy; [constructor; assumption|].
+  destruct (init_header d nd g) as [[h info]|] eqn:Eh; [|constructor; assumption].
+  destruct (forge_facts g d nd h info pubs Eh Hd Hgen) as (G1 & G2 & G3 & G4 & I1 & I2 & I3 & _ & _ & _ & G8).
+  assert (Hmg : mhg h = max_height pubs).
+  { destruct d as [i|]; [rewrite <- G8; exact Hdisk|subst pubs; exact G8]. }
+  destruct c.
+  - constructor; [exact Hinv'| |]; cbn [disk published].
+    + constructor; assumption.
+    + unfold largest. rewrite I1, I3, Hmg. cbn [max_height]. reflexivity.
+  - constructor; assumption.
+  - congruence.
 Qed.
 
-Lemma run_inv_eq : forall g evs s s', InvEq g s -> no_crash_after_persist evs ->
-  run g init_header s evs = Some s' -> InvEq g s'.
+Lemma run_inv_eq : forall g evs s, InvEq g s -> no_crash_after_persist evs -> InvEq g (run g init_header s evs).
 Proof.
-  induction evs as [|e evs IH]; intros s s' Hinv Hnc Hrun; cbn [run] in Hrun.
-  - injection Hrun as <-. assumption.
-  - destruct (step g init_header s e) as [s1|] eqn:E; [|discriminate].
-    eapply IH; [eapply step_inv_eq; [exact Hinv| |exact E]| |exact Hrun].
-    + intros a Ha. apply (Hnc a). left. exact Ha.
-    + intros a Ha. apply (Hnc a). right. exact Ha.
+  induction evs as [|e evs IH]; intros s Hinv Hnc; cbn [run fold_left]; [exact Hinv|].
+  apply IH.
+  - apply step_inv_eq; [exact Hinv|]. intros ->. apply Hnc. left. reflexivity.
+  - intros H. apply Hnc. right. exact H.
 Qed.
 
-Lemma crash_free_history_is_follower : forall g t0 evs s,
-  tip_ok t0 = true -> no_crash_after_persist evs -> run g init_header (init t0) evs = Some s ->
+Lemma crash_free_history_is_follower : forall g t0 evs,
+  no_crash_after_persist evs ->
+  let s := run g init_header (init t0) evs in
   follower (published s) /\
-  (forall t, mhg (fst (init_header (disk s) t g)) = max_height (published s)).
+  (forall t h info, init_header (disk s) t g = Some (h, info) -> mhg h = max_height (published s)).
 Proof.
-  intros g t0 evs s Hok Hnc Hrun.
-  assert (H0 : InvEq g (init t0)).
-  { constructor; [apply init_inv; assumption|constructor|reflexivity]. }
-  pose proof (run_inv_eq g evs _ _ H0 Hnc Hrun) as [_ Hfol Hd]. split; [exact Hfol|].
-  intros t. rewrite init_header_fields. cbn [fst mhg].
-  destruct (disk s) as [i|]; [exact Hd|]. rewrite Hd. reflexivity.
+  intros g t0 evs Hnc s.
+  assert (H0 : InvEq g (init t0)) by (constructor; [apply init_inv|constructor|reflexivity]).
+  pose proof (run_inv_eq g evs _ H0 Hnc) as [[_ Hgen Hd] Hfol Hdk]. fold s in Hgen, Hd, Hfol, Hdk.
+  split; [exact Hfol|]. intros t h info Hh.
+  destruct (forge_facts g (disk s) t h info (published s) Hh Hd Hgen) as (_ & _ & _ & _ & _ & _ & _ & _ & _ & _ & G8).
+  destruct (disk s) as [i|]; [rewrite <- G8; exact Hdk|rewrite Hdk; exact G8].
 Qed.
 
-(* ------------------------------------------------------------------ the original initBlockHeader is refuted *)
+(* the generator only ever refuses when the new header would not exceed the persisted one; in particular it is
+   never blocked once the tip key has grown past it (liveness side of the guard) *)
+Lemma forge_not_refused_when_exceeding : forall d t g,
+  match d with Some i => exceeds i (t_smhp t) (u32 (t_height t + 1)) = true | None => True end ->
+  exists h info, init_header d t g = Some (h, info).
+Proof.
+  intros d t g H. unfold init_header. destruct d as [i|]; [rewrite H|]; unfold init_header_noguard; eauto.
+Qed.
+
+(* ------------------------------------------------------------------ the earlier versions are refuted *)
+(* ORIGINAL (maxHeightGenerated = last height): 99,100 on chain A, then 90,91 on the better, shorter chain B *)
 Definition w_evs : list ev :=
-  [ EForge NoCrash 50; EForge NoCrash 50;                 (* heights 99 and 100 on chain A *)
-    ETip {| t_hmhp := 60; t_smhp := 60; t_height := 89 |}; (* better (higher maxHeightPrevoted), shorter chain B *)
-    EForge NoCrash 60; EForge NoCrash 60 ].               (* heights 90 and 91 on chain B *)
+  [ EForge NoCrash; ETip {| t_smhp := 50; t_height := 99 |}; EForge NoCrash;
+    ETip {| t_smhp := 60; t_height := 89 |}; EForge NoCrash; ETip {| t_smhp := 60; t_height := 90 |}; EForge NoCrash ].
 
 Lemma never_self_contradicting_orig_refuted :
-  exists g t0 evs s, tip_ok t0 = true /\ run g init_header_orig (init t0) evs = Some s /\
-    exists b1 b2, In b1 (published s) /\ In b2 (published s) /\ b1 <> b2 /\ contradicting b1 b2 = true.
+  exists g t0 evs b1 b2, let s := run g init_header_orig (init t0) evs in
+    In b1 (published s) /\ In b2 (published s) /\ b1 <> b2 /\ contradicting b1 b2 = true.
 Proof.
-  exists 7, {| t_hmhp := 50; t_smhp := 50; t_height := 98 |}, w_evs.
-  eexists. split; [reflexivity|]. split; [vm_compute; reflexivity|].
-  exists (Build_bh 91 7 90 60), (Build_bh 100 7 99 50).
-  split; [left; reflexivity|]. split; [right; right; left; reflexivity|]. split; [discriminate|]. vm_compute. reflexivity.
+  exists 7, {| t_smhp := 50; t_height := 98 |}, w_evs, (Build_bh 91 7 90 60), (Build_bh 100 7 99 50).
+  cbv zeta. split; [left; reflexivity|]. split; [right; right; left; reflexivity|]. split; [discriminate|]. vm_compute. reflexivity.
 Qed.
 
-(* the same events on the repaired code *)
+(* FIRST REPAIR only (largest height, no guard): a second tick before the own block is processed double-forges,
+   and a tip lowered by a failed sync yields a contradicting header *)
+Lemma never_self_contradicting_noguard_refuted :
+  (exists g t0 b1 b2, let s := run g init_header_noguard (init t0) [EForge NoCrash; EForge NoCrash] in
+     In b1 (published s) /\ In b2 (published s) /\ b1 <> b2 /\ contradicting b1 b2 = true) /\
+  (exists g t0 t1 b1 b2, let s := run g init_header_noguard (init t0) [EForge NoCrash; ETip t1; EForge NoCrash] in
+     t_height t1 < t_height t0 /\ In b1 (published s) /\ In b2 (published s) /\ b1 <> b2 /\ contradicting b1 b2 = true).
+Proof.
+  split.
+  - exists 7, {| t_smhp := 3; t_height := 3 |}, (Build_bh 4 7 4 3), (Build_bh 4 7 0 3). cbv zeta.
+    split; [left; reflexivity|]. split; [right; left; reflexivity|]. split; [discriminate|]. vm_compute. reflexivity.
+  - exists 7, {| t_smhp := 0; t_height := 6 |}, {| t_smhp := 0; t_height := 5 |}, (Build_bh 6 7 7 0), (Build_bh 7 7 0 0). cbv zeta.
+    split; [cbn; lia|]. split; [left; reflexivity|]. split; [right; left; reflexivity|]. split; [discriminate|]. vm_compute. reflexivity.
+Qed.
+
+(* the same events on the current code *)
 Example repaired_on_witness :
-  exists s, run 7 init_header (init {| t_hmhp := 50; t_smhp := 50; t_height := 98 |}) w_evs = Some s /\
-            map mhg (published s) = [100; 100; 99; 0].
-Proof. eexists. split; vm_compute; reflexivity. Qed.
+  map (fun b => (height b, mhg b)) (published (run 7 init_header (init {| t_smhp := 50; t_height := 98 |}) w_evs))
+  = [(91, 100); (90, 100); (100, 99); (99, 0)] /\
+  length (published (run 7 init_header (init {| t_smhp := 3; t_height := 3 |}) [EForge NoCrash; EForge NoCrash])) = 1%nat.
+Proof. split; vm_compute; reflexivity. Qed.
